@@ -16,6 +16,8 @@ Decided clauses:
        local buffer copied into it) is a function that reduces modulo L.
   R7.10 expand_message_xmd hashes the same DST_prime bytes into b_0 and into every later block: the object
         they are read from is not written in between (reports the genuine defect F6 for oversize contexts).
+  R7.11 the oversize replacement of the tag happens exactly for contexts longer than 255 bytes (interval of
+        strlen(ctx) on the replacing / verbatim paths).
   R7.8 (E12 known-bits, contradiction rule) no right shift / mask of a non-literal value in the field,
        scalar and X25519 limb arithmetic is identically zero (a cut carry chain), outside one
        confirmed-by-reading exception.
@@ -27,6 +29,7 @@ decoders beyond the checklist.
 from .. import deps
 from .. import terms as T
 from ..build import AnalysisBroken
+from ..terms import C
 from ..callgraph import covers
 from . import common as cm
 
@@ -343,6 +346,32 @@ def run(ctx, chk):
                           bad[0].callee_name() if bad[0].kind == "call" else "a store"),
                        path=p, key="R7.10 %s oversize-dst-overwritten" % name)
     chk.floor("R7.10", "(path, domain-separation tag) groups in the two expanders", n710, 4)
+
+    # ---- R7.11 the oversize-DST replacement is applied exactly to tags longer than 255 bytes (RFC 9380 5.3.3) -------------
+    n711 = 0
+    for name in ("core_h2c_string_to_hash_sha256", "core_h2c_string_to_hash_sha512"):
+        f = need(name)
+        for p in cm.paths(prog, f, backedge_limit=1):
+            if p.kind != "ret":
+                continue
+            sl = [e for e in p.calls("strlen")]
+            if not sl:
+                continue            # ctx == NULL: length 0
+            L = sl[0].res
+            over = [e for e in p.calls() if (e.callee_name() or "").endswith("_update") and len(e.args) >= 3
+                    and T.root(e.args[1])[0] == "g" and e.args[2] == C(17, 64)]
+            iv = p.facts.interval(L) or (0, (1 << 64) - 1)
+            n711 += 1
+            if over:
+                ok = iv[0] >= 256
+                what = "the H2C-OVERSIZE-DST- replacement is applied only to contexts longer than 255 bytes"
+            else:
+                ok = iv[1] <= 255
+                what = "contexts hashed verbatim are at most 255 bytes long (their length fits the one length byte)"
+            chk.ob("R7.11", f, what, ok, loc=f.loc(p.end_iid), detail="strlen(ctx) in [%d, %s] on this path" % (
+                iv[0], "2^64-1" if iv[1] >= (1 << 64) - 1 else iv[1]), path=None if ok else p,
+                key="R7.11 %s %s" % (name, "oversize" if over else "verbatim"))
+    chk.floor("R7.11", "paths of the expanders with a non-NULL context", n711, 4)
 
     # ---- R7.8 (E12) carry chains of the field / scalar arithmetic are not cut ---------------------------------
     from .. import knownbits
